@@ -15,7 +15,7 @@ ENGINE = {'name': 'timing',
          'loopback socket); matching timeouts 80 ms / 300 ms / 1.2 s; connection start aligned to wall-clock second fractions .05 / .5 / .95; '
          'clients: silent, one message at timeout/2, one byte every timeout/6, 24 kB flood; route lists: one always-undecided route, a route that '
          'matches at once and whose handler blocks in a read until after the timeout, an empty route list whose fallback blocks in a read until '
-         'after the timeout, a route without matchers whose non-terminal handler sleeps 0/20/60 ms or blocks in a read until the client\'s next message (+20/+60 ms) followed by a never-deciding route (thorough: all floods and phases, 40 random timeout/phase/gap combinations). A scenario failing the oracle is re-run '
+         'after the timeout, a route without matchers whose non-terminal handler sleeps 0/20/60 ms or blocks in a read until the client\'s next message (+20/+60 ms) followed by a never-deciding route, matching phases that START late (0.5 and 1.5 matching timeouts after WrapConnection: a subroute entered after the outer handler blocked in a read that long; a connection that waited that long before its compiled route was entered) and must still last their own timeout (thorough: all floods and phases, 40 random timeout/phase/gap combinations). A scenario failing the oracle is re-run '
          'once before it is reported. Every finished scenario is emitted with its actual start instant and actual send instants for the in-Coq '
          'run of model/Timing.v (outcome class equal, return instant within [-5 ms, +400 ms] of the model\'s, plus one gap for trickling clients; the oracle itself uses timeout-5 ms <= t <= timeout+250 ms); '
          'scenarios with an instant within 10-30 ms of a whole wall-clock second or of the deadline are run through the oracle only. '
